@@ -33,6 +33,8 @@ def checkEval (op : String) (args res : List String) : Verdict :=
     match pAsg? before, pAsg? after with
     | some b, some a =>
       if b.length ≠ a.length then .viol "ev/assignment-changed" "number of assigned variables changed" else
+      if a.any (fun e => match e.2 with | .none => true | _ => false) then
+        .viol "ev/assignment-changed" s!"a query removed a value from the assignment: {before} became {after}" else
       match asgOperandsOk a with
       | some m => .viol "state/operand-repr" s!"after the query: {m}"
       | none =>
@@ -148,6 +150,10 @@ def showSInt (i : Eval.SInt) : String :=
 
 def rootsCap : Nat := 8
 
+/-- the leading coefficients in y that vanish exactly under the assignment are dropped before the reference is computed: the
+    specialised polynomial is the same function (`reduceLeading_spec`), the eliminations become much smaller -/
+def reduced (p : MPoly) (a : Asg) : MPoly := (Eval.reduceLeading p yVar a 12).getD p
+
 def checkEval2 (op : String) (args res : List String) : Verdict :=
   match op, args, res with
   | "roots", [ps, as], ns :: vs =>
@@ -161,7 +167,7 @@ def checkEval2 (op : String) (args res : List String) : Verdict :=
         match got.findSome? (fun v => match valOk v with | .viol c m => some (Verdict.viol c m) | _ => none) with
         | some v => v
         | none =>
-        let p := MPoly.normalize none raw
+        let p := reduced (MPoly.normalize none raw) a
         match Eval.rootsUnder p yVar a rootsCap with
         | none =>
           -- degenerate eliminant (or cap): isolate by interval arithmetic alone (simple roots only)
@@ -236,7 +242,7 @@ def checkEval2 (op : String) (args res : List String) : Verdict :=
       match asgToZ av with
       | none => .skip "infinite value in assignment"
       | some a =>
-        let p := MPoly.normalize none raw
+        let p := reduced (MPoly.normalize none raw) a
         match Eval.feasible p yVar a c (ng ≠ 0) rootsCap with
         | none => .skip "feasible set inconclusive (size cap / fuel)"
         | some (rs, want) =>
@@ -252,7 +258,7 @@ def checkEval2 (op : String) (args res : List String) : Verdict :=
       match asgToZ av with
       | none => .skip "infinite value in assignment"
       | some a =>
-        let p := MPoly.normalize none raw
+        let p := reduced (MPoly.normalize none raw) a
         match Eval.rootsUnder p yVar a rootsCap with
         | none => .skip "roots inconclusive (size cap / fuel)"
         | some rs =>
@@ -269,7 +275,7 @@ def checkEval2 (op : String) (args res : List String) : Verdict :=
     | some raw, some k, some c, some av, some yv, some b =>
       match asgToZ av, yv.toZ? with
       | some a, some y =>
-        let p := MPoly.normalize none raw
+        let p := reduced (MPoly.normalize none raw) a
         match Eval.rootsUnder p yVar a rootsCap with
         | none => .skip "roots inconclusive (size cap / fuel)"
         | some rs =>
